@@ -146,6 +146,9 @@ def run(ctx, rep):
                        detail="timestamps are stored and looked up under the same constant (users: %s)" % sorted(set(users))))
 
     timestamp_slot(ctx, rep, led)
+    # "each track retrievable under the id it was added with": the decoder restores decoded unique ids
+    from .C01 import uniqueid
+    uniqueid(ctx, rep)
 
 
 def timestamp_slot(ctx, rep, led):
